@@ -9,7 +9,7 @@ from ..classflow import EXEMPT_ROOTS, Closure, callable_names
 from ..loader import AnalysisError, BuiltinClass, ClassInfo, FuncInfo, dotted, norm
 from ..report import Ctx
 from . import _c16_helpers as H
-from ._c08_helpers import combined_read_through_rule, get_never_raises_rule, pickle_state_rule, removal_loop_rule
+from ._c08_helpers import combined_observers_rule, desugar_suppress, combined_read_through_rule, get_never_raises_rule, headers_first_match_rule, pickle_state_rule, removal_loop_rule
 from ._shared import headerset_insertion_rule, headerset_order_rule, headerset_roles
 
 LEVEL_TEXT = (
@@ -54,7 +54,19 @@ LEVEL_TEXT = (
     "counting as the first-value view again) builds its state from a read that carries every value of every key - "
     "items(multi=True) not collapsed by dict(), lists() / listvalues() / getlist() / to_dict(flat=False), the raw dict of "
     "lists (dict.items(self) ...), a storage attribute, a copy of the multi dict - and not only from the first-value view "
-    "(dict(self), items(), values(), to_dict(), self[key]). It decides these clauses on all paths, not conformance of every read "
+    "(dict(self), items(), values(), to_dict(), self[key]). Two clauses are decided by constant propagation of concrete values "
+    "through the syntax trees of the methods (DESIGN 9.2; nothing of werkzeug is imported or run; calls of other methods / helpers of "
+    "the package, generator functions, explicit raises caught by class, with contextlib.suppress, match on builtin types followed), "
+    "for the states of a fixed table and for nothing else: (R8.11) len(), iteration and keys() of the combined multi dict, as "
+    "its MRO resolves them, on 7 lists of wrapped dicts (none, empty ones, disjoint keys, a key shared by two / by all wrapped dicts, "
+    "the same key in another letter case; the wrapped dicts are the documented MultiDict model, not werkzeug's code) give the "
+    "number of distinct keys / each distinct key exactly once - so the sibling observers of the key set agree with each other; "
+    "(R8.12) Headers' keyed read accessors h[key], get(key), get(key, default), pop(key), pop(key, default) on 4 pair lists "
+    "(a key repeated in several letter cases with different values, a single pair, the empty list; 10 (list, key) cases per "
+    "form) give the value of the FIRST pair in list order whose key equals the given key case-insensitively, the default / "
+    "None / a KeyError for a missing key, leave the list unchanged (get, item access) and pop leaves exactly the other "
+    "pairs in order. In the container modules `with contextlib.suppress(E): body` is read by every clause as try: body / except E: pass. "
+    "It decides the other clauses on all paths, not conformance of every read "
     "with the abstract model after every history; generator bodies of callees and implicit exceptions are not "
     "followed; for R8.7 a scan spelled as a comprehension / generator expression / next() / any() is complete by "
     "construction and what is then done with its result (e.g. consulting only the first dict that has the key) is not "
@@ -67,10 +79,16 @@ LEVEL_TEXT = (
     "callable) are not followed; for R8.10 whether the constructor / __setstate__ rebuilds the object from that state is "
     "not decided, nor is the pickling of Headers / HeaderSet (default reduction of their attributes); a path whose state "
     "does not mention the object at all is accepted when another path of the reduction reads it completely (which objects "
-    "take the constant path is not decided), and in the flow-insensitive mode one complete read reaching the state suffices."
+    "take the constant path is not decided), and in the flow-insensitive mode one complete read reaching the state suffices; "
+    "for R8.11 / R8.12 nothing is decided outside the table (longer lists, other key alphabets, non-string keys, get() with a "
+    "type conversion, the int / slice / None forms of item access and pop, setdefault and the other accessors, EnvironHeaders, "
+    "the order in which the combined view hands out keys, its other readers - values, items, lists, getlist agree with the model only "
+    "as far as R8.7 goes), and a method whose evaluation leaves the modelled subset of Python (super(), with statements other than "
+    "suppress, classes other than the modelled instance, a generator that raises, isinstance against package classes) ends in "
+    "ANALYSIS-ERROR, never in a verdict; a disagreement computed on one state is reported even if another state could not be evaluated."
 )
-TRUSTED = ["CPython ast", "typeshed method tables of list/dict/MutableSet/MutableMapping/MutableSequence (bundled with the repo's mypy, read as text)", "Python MRO (C3) and super() semantics", "builtin container semantics: dict.pop / set.discard / remove change the container iff the key is present, setdefault iff it is absent"]
-ASSUMPTIONS = ["private helpers (single underscore) are reachable only through public methods of the same class", "constructors and the pickle/copy protocol are exempt from R8.1 (they initialise a new object)", "R8.7: the list of wrapped dicts holds mapping objects (never None) and a private sentinel object of the package (_missing) is never a value stored in a wrapped dict", "R8.8: a container may hold two adjacent elements that match a removal condition (no uniqueness invariant is assumed for a list walked by a removal loop)", "R8.10: the documented reader names of the multi dict model (items(multi=...), lists, listvalues, getlist, to_dict(flat=...), copy / deepcopy) mean what the model says"]
+TRUSTED = ["CPython's own str / list / dict / set / tuple operations and pure builtins applied to the table's concrete values (R8.11 / R8.12; the evaluator is _c08_helpers.Concrete / ModelEval)", "CPython ast", "typeshed method tables of list/dict/MutableSet/MutableMapping/MutableSequence (bundled with the repo's mypy, read as text)", "Python MRO (C3) and super() semantics", "builtin container semantics: dict.pop / set.discard / remove change the container iff the key is present, setdefault iff it is absent"]
+ASSUMPTIONS = ["private helpers (single underscore) are reachable only through public methods of the same class", "constructors and the pickle/copy protocol are exempt from R8.1 (they initialise a new object)", "R8.7: the list of wrapped dicts holds mapping objects (never None) and a private sentinel object of the package (_missing) is never a value stored in a wrapped dict", "R8.8: a container may hold two adjacent elements that match a removal condition (no uniqueness invariant is assumed for a list walked by a removal loop)", "R8.11: a wrapped dict behaves like the documented MultiDict (a dict of non-empty value lists whose dict protocol - iteration, len, in, keys() - is that of its keys; item access gives the first value)", "R8.12: the attribute Headers.__init__() sets to an empty list when given nothing is the pair list all accessors work on", "R8.10: the documented reader names of the multi dict model (items(multi=...), lists, listvalues, getlist, to_dict(flat=...), copy / deepcopy) mean what the model says"]
 
 CI_CLASSES = ["datastructures.headers.Headers", "datastructures.structures.HeaderSet"]
 LOWERED_SETS = {"_set"}  # HeaderSet._set holds lower-cased members (established by R8.3's pairing + __init__)
@@ -87,6 +105,7 @@ def _immutable_classes(ctx: Ctx) -> list[ClassInfo]:
 
 def run(ctx: Ctx) -> None:
     repo = ctx.repo
+    desugar_suppress(repo)  # with contextlib.suppress(E): body  ==  try: body / except E: pass (the CFG has no handler edge for a with)
     ctx.rule("R8.1", "every public/special method name callable on an immutable variant, resolved in that class's MRO, is a rejector (raises TypeError on every path, mutates nothing first) or reaches no primitive mutation of the underlying storage")
     ctx.rule("R8.2", "in Headers / HeaderSet, a comparison (== != in not-in) with one operand lower-cased has the other operand lower-cased too")
     ctx.rule("R8.3", "every HeaderSet method that mutates _headers mutates _set and vice versa")
@@ -96,6 +115,8 @@ def run(ctx: Ctx) -> None:
     ctx.rule("R8.7", "every read method of CombinedMultiDict reads the wrapped dicts, scans the whole list in order, and abandons a scan only with a value found in the current dict (the not-found / accumulated outcome needs a complete scan)")
     ctx.rule("R8.8", "a loop of the container modules that removes an element from the list it walks does not advance past the element that moves into the hole (it leaves the loop, walks backwards, walks a copy and removes by value, or does not advance the index on the deleting path)")
     ctx.rule("R8.9", "get() of every container class, resolved in the class's MRO with the class's own item access inlined, lets no explicitly raised lookup error escape: a key without value gives the default")
+    ctx.rule("R8.11", "len(), iteration and keys() of the combined multi dict, evaluated on a table of wrapped-dict states, give the distinct keys of the wrapped dicts (their number / each once): the sibling observers of the key set agree")
+    ctx.rule("R8.12", "Headers' keyed read accessors (h[key], get, pop), evaluated on a table of pair lists with repeated keys, answer with the first matching pair in list order, the default / KeyError for a missing key, and pop leaves exactly the other pairs")
     ctx.rule("R8.10", "the pickle reduction of every class with the multi dict in its MRO (the __reduce_ex__ the MRO resolves, else __getstate__) builds its state from a read that carries every value of every key, not from the first-value view")
 
     # ---------------- R8.1 -------------------------------------------
@@ -301,6 +322,10 @@ def run(ctx: Ctx) -> None:
 
     # ---------------- R8.10 ------------------------------------------
     ctx.floor("R8.10", "classes with the multi dict in their MRO", pickle_state_rule(ctx, "R8.10"), 4)
+
+    # ---------------- R8.11 / R8.12 ----------------------------------
+    ctx.floor("R8.11", "(observer, state) evaluations of the combined view", combined_observers_rule(ctx, "R8.11"), 21)
+    ctx.floor("R8.12", "(accessor form, state, key) evaluations of Headers", headers_first_match_rule(ctx, "R8.12"), 50)
 
 
 # ---------------------------------------------------------------------
